@@ -1,5 +1,8 @@
 // C18 — gridded persistence landscapes (Persistence_landscape_on_grid) against the definition in landscape_def.h.
 // Grid-aligned diagrams only: every endpoint is a grid point inside [grid_min, grid_max].
+// Grids: dyadic (grid points are exact doubles), and in config grid_values 1 case in 4 a decimal grid (dx = 0.1, 0.01, 0.3):
+// grid_min, grid_max and every endpoint are then the doubles nearest to the decimal numbers a user would type or read
+// from a file (what strtod returns for "0.3"), i.e. grid-aligned up to half an ulp.
 //   align=same_parity  : all endpoints are even grid points, or all are odd grid points.  Then every breakpoint of every
 //                lambda_k (b, d, (b+d)/2, (d_i+b_j)/2) is a grid point and the piecewise-linear interpolation of the
 //                samples IS the landscape: values are compared at and between grid points, integrals / inner products /
@@ -26,33 +29,55 @@ const double kInf = std::numeric_limits<double>::max();
 
 struct Silence { Silence() { std::clog.rdbuf(nullptr); } } silence_clog;
 
+// grid point i is the rational (g0 + i*num)/den with integers g0, num, den, evaluated by one correctly rounded division:
+// exact when den is a power of two, otherwise the double nearest to the decimal number (= strtod of its literal)
 struct Grid {
-  double gmin, dx; int N;
-  double gmax() const { return gmin + N * dx; }
-  double x(int i) const { return gmin + i * dx; }
+  double g0, num, den; int N; bool dyadic;
+  double gmin, dx;   // x(0) and the nominal spacing num/den
+  Grid() {}
+  Grid(double g0_, double num_, double den_, int N_, bool dy) : g0(g0_), num(num_), den(den_), N(N_), dyadic(dy), gmin(g0_ / den_), dx(num_ / den_) {}
+  double gmax() const { return x(N); }
+  double x(int i) const { return (g0 + i * num) / den; }
+  Grid translated(double T) const { return Grid(g0 + T * den, num, den, N, dyadic); }   // T an integer
 };
-Grid pick_grid(vh::Rng& r) {
+Grid pick_grid(vh::Rng& r, bool decimal = false, bool large = false) {
+  if (decimal) {
+    static const double nums[] = {1, 1, 3}, dens[] = {10, 100, 10};
+    static const double tenths[] = {0, 0, 5, -7, 10};         // grid_min = 0, 0.5, -0.7, 1
+    static const int Ns[] = {16, 20, 30, 50, 64, 100};
+    unsigned w = (unsigned)r.below(3);
+    return Grid(tenths[r.below(5)] * (dens[w] / 10), nums[w], dens[w], Ns[r.below(6)], false);
+  }
   static const double steps[] = {0.25, 0.25, 0.5, 0.125, 1.0};
   static const double origins[] = {0.0, 0.0, -3.0, 1.5, 16.0, -0.75};
   static const int Ns[] = {16, 24, 32, 64};
-  return Grid{origins[r.below(6)], steps[r.below(5)], Ns[r.below(4)]};
+  double o = origins[r.below(6)], st = steps[r.below(5)];
+  if (large) return Grid(o * 8, st * 8, 8, r.chance(1, 2) ? 96 : 128, true);
+  return Grid(o * 8, st * 8, 8, Ns[r.below(4)], true);
 }
 std::string show(const Grid& g) { return "grid_min=" + vh::str(g.gmin) + " grid_max=" + vh::str(g.gmax()) + " number_of_points=" + vh::str(g.N); }
+Diagram on_grid(const c18::DiagInfo& d, const Grid& g) {
+  Diagram D;
+  for (auto& p : d.iv) D.push_back(std::make_pair(g.x(p.first), g.x(p.second)));
+  return D;
+}
 
 struct Gen { c18::DiagInfo di; Diagram D; };
 // parity: 0 = all endpoints on even grid points, 1 = all on odd grid points, -1 = any grid point
-Gen gen(vh::Case& c, const Grid& g, int parity, bool allow_zero, int max_m, const char* name) {
-  c18::GenOpts go; go.allow_zero = allow_zero; go.max_m = max_m;
+Gen gen(vh::Case& c, const Grid& g, int parity, bool allow_zero, int max_m, const char* name, int min_m = 2) {
+  c18::GenOpts go; go.allow_zero = allow_zero; go.max_m = max_m; go.min_m = min_m;
   go.R = parity < 0 ? g.N : (g.N - parity) / 2;
   Gen out; out.di = c18::gen_diagram(c.rng, go);
   if (parity >= 0) c18::same_parity(out.di, parity);
-  out.D = c18::to_coords(out.di, g.gmin, g.dx);
+  out.D = on_grid(out.di, g);
   c18::count_classes(c, out.di);
   if (out.di.mixed_parity) c.count("diag.align.mixed_parity"); else c.count(parity == 1 ? "diag.align.all_odd" : "diag.align.all_even_or_single_parity");
   c.log(std::string(name) + " " + c18::show(out.D));
   return out;
 }
-std::string cls_of(bool mixed, bool zero) { return std::string("align=") + (mixed ? "mixed_parity" : "same_parity") + (zero ? ",zero_len" : ""); }
+std::string cls_of(bool mixed, bool zero, const Grid* g = nullptr) {
+  return std::string("align=") + (mixed ? "mixed_parity" : "same_parity") + (g && !g->dyadic ? ",grid=decimal" : "") + (zero ? ",zero_len" : "");
+}
 
 // table of a reference function on the grid: tab[i][k], k < nlev
 std::vector<std::vector<double> > grid_table(const Fn& f, const Grid& g, size_t nlev, bool absval = false) {
@@ -131,14 +156,17 @@ bool nontrivial_diag(const c18::DiagInfo& d) { return d.iv.size() >= 3 && d.over
 // ------------------------------------------------------------------------------------------------ grid_values
 void values_case(vh::Case& c) {
   vh::Rng& r = c.rng;
-  Grid g = pick_grid(r);
+  const bool large = r.chance(1, 40);   // 20-48 intervals on a grid of 96 or 128 cells
+  Grid g = large ? pick_grid(r, false, true) : pick_grid(r, r.chance(1, 4));
+  c.count(g.dyadic ? "grid.dyadic" : "grid.decimal");
+  if (large) c.count("diag.large.grid");
   unsigned u = (unsigned)r.below(8);
   int parity = u < 4 ? 0 : u < 6 ? 1 : -1;
   bool allow_zero = r.chance(1, 2);
   c.log(show(g));
-  Gen d = gen(c, g, parity, allow_zero, (c.thorough && r.chance(1, 5)) ? 20 : 12, "diagram");
+  Gen d = large ? gen(c, g, parity, allow_zero, 48, "diagram", 20) : gen(c, g, parity, allow_zero, (c.thorough && r.chance(1, 5)) ? 20 : 12, "diagram");
   const bool mixed = d.di.mixed_parity;
-  const std::string cls = cls_of(mixed, d.di.zero);
+  const std::string cls = cls_of(mixed, d.di.zero, &g);
   const size_t m = d.D.size();
   Fn f(d.D);
   auto tab = grid_table(f, g, m);
@@ -182,6 +210,32 @@ void values_case(vh::Case& c) {
       if (!check_scalar(c, L.compute_integral_of_landscape((double)p), totp[p], kIntTol, "grid.integral_p", cls + ",p=" + vh::str(p), "compute_integral_of_landscape(p)")) return false;
   }
 
+    return true;
+  }() && ok;
+
+  ok = [&]() -> bool {
+  // suprema: of the whole landscape, of each level 0..m+1 (a level that does not exist is the zero function), and the
+  // y-range.  With all breakpoints on grid points every supremum is attained on a grid point.
+  if (!mixed) {
+    c.log("compute_maximum / find_max / get_y_range");
+    double sup0 = 0; bool all_zero = true;
+    for (int i = 0; i <= g.N; ++i) for (size_t k = 0; k < m; ++k) { sup0 = std::max(sup0, tab[i][k]); if (tab[i][k] != 0) all_zero = false; }
+    const std::string z = all_zero ? ",zero_function" : "";
+    if (all_zero) c.count("state.zero_function");
+    if (!check_scalar(c, L.compute_maximum(), sup0, kValTol, "grid.maximum", cls + z, "compute_maximum()")) return false;
+    for (size_t k = 0; k < m + 2; ++k) {
+      double supk = 0;
+      for (int i = 0; k < m && i <= g.N; ++i) supk = std::max(supk, tab[i][k]);
+      c.count(supk > 0 ? "op.find_max.nonzero_level" : "op.find_max.zero_level");
+      if (!check_scalar(c, L.find_max((unsigned)k), supk, kValTol, "grid.find_max", cls + (supk > 0 ? ",level=nonzero" : ",level=zero"), "find_max(" + vh::str(k) + ")")) return false;
+    }
+    std::pair<double, double> yr = L.get_y_range();
+    c.count("cmp.grid.y_range");
+    if (!c18::close(yr.first, 0.0, kValTol) || !c18::close(yr.second, sup0, kValTol)) {
+      c.violation("grid.y_range", cls + z, "get_y_range() = [" + vh::str(yr.first) + ", " + vh::str(yr.second) + "] want [0, " + vh::str(sup0) + "]");
+      return false;
+    }
+  }
     return true;
   }() && ok;
 
@@ -291,15 +345,54 @@ void algebra_case(vh::Case& c) {
   T.abs();
   ok = check_result(c, T, ft, true, g, "grid.abs", cls) && ok;
 
+  // the right-hand side is the object itself
+  c.log("U=L0; U+=U; V=L1; V-=V"); c.count("op.compound.self.grid", 2);
+  {
+    Persistence_landscape_on_grid U = L0; U += U;
+    ok = check_result(c, U, lsdef::scaled(f0, 2.0), false, g, "grid.compound_assign", cls + ",self") && ok;
+    Persistence_landscape_on_grid V = L1; V -= V;
+    ok = check_result(c, V, lsdef::scaled(f1, 0.0), false, g, "grid.compound_assign", cls + ",self") && ok;
+  }
+
   int n = 1 + (int)r.below(5);
   std::vector<Persistence_landscape_on_grid*> ptrs; Fn fav; std::string lg = "average of";
   Persistence_landscape_on_grid* Ls[3] = {&L0, &L1, &L2};
   for (int i = 0; i < n; ++i) { int j = (int)r.below(3); ptrs.push_back(Ls[j]); fav.terms.push_back(lsdef::Term{1.0 / n, &t.d[j].D}); lg += " L" + vh::str(j); }
   c.log(lg); c.count("op.average"); c.count("op.average.n" + vh::str(n));
+  const std::string nsig = ",n=" + std::string(n == 1 ? "1" : n == 2 ? "2" : "3+");
   Persistence_landscape_on_grid Av;
   if (r.chance(1, 2)) Av = L2;
   Av.compute_average(ptrs);
-  ok = check_result(c, Av, fav, false, g, "grid.average", cls + ",n=" + std::string(n == 1 ? "1" : n == 2 ? "2" : "3+")) && ok;
+  ok = check_result(c, Av, fav, false, g, "grid.average", cls + nsig) && ok;
+  // the destination is one of the operands (running average  X = average(X, M, ...)): same function on the same grid
+  {
+    Persistence_landscape_on_grid* dest = ptrs[r.below(ptrs.size())];
+    Persistence_landscape_on_grid X = *dest;
+    std::vector<Persistence_landscape_on_grid*> aliased = ptrs;
+    size_t occurrences = 0;
+    for (auto& q : aliased) if (q == dest) { q = &X; ++occurrences; }
+    c.log("X := L" + vh::str(dest == &L0 ? 0 : dest == &L1 ? 1 : 2) + "; X.compute_average(the same list with X in place of that operand, " + vh::str(occurrences) + " times)");
+    c.count("op.average.aliased.grid");
+    bool threw = false;
+    try { X.compute_average(aliased); }
+    catch (const char* msg) {
+      c.violation("grid.average", cls + ",aliased" + nsig, std::string("X.compute_average(list containing X) threw: ") + msg);
+      threw = true; ok = false;
+    }
+    if (!threw) {
+    // the average lives on the grid of its operands (get_x_range() documents [grid_min, grid_max]); evaluating a
+    // landscape that lost its grid would read out of range, so this is looked at first
+    std::pair<double, double> xr = X.get_x_range();
+    c.count("cmp.grid.average.x_range");
+    if (xr.first != g.gmin || xr.second != g.gmax()) {
+      c.violation("grid.average", cls + ",aliased" + nsig, "after X.compute_average(list containing X): get_x_range() = [" + vh::str(xr.first) + ", " + vh::str(xr.second) +
+                  "] but the operands live on [" + vh::str(g.gmin) + ", " + vh::str(g.gmax()) + "]");
+      ok = false;
+    } else {
+      ok = check_result(c, X, fav, false, g, "grid.average", cls + ",aliased" + nsig) && ok;
+    }
+    }
+  }
 
   if (ok && nontrivial_diag(t.d[0].di) && nontrivial_diag(t.d[1].di)) c.nontrivial(vh::hash_str(vh::G().history));
   c.sample("{\"history\":\"" + vh::jesc(vh::G().history.substr(0, 700)) + "\"}");
@@ -319,8 +412,21 @@ void metric_case(vh::Case& c) {
   Three t = gen_three(c, 10);
   const Grid& g = t.g;
   std::string cls = cls_of(false, t.zero);
-  Persistence_landscape_on_grid L[3] = {Persistence_landscape_on_grid(t.d[0].D, g.gmin, g.gmax(), g.N), Persistence_landscape_on_grid(t.d[1].D, g.gmin, g.gmax(), g.N),
-                                        Persistence_landscape_on_grid(t.d[2].D, g.gmin, g.gmax(), g.N)};
+  // Far from the origin: the library gets grid and diagrams translated by T (exactly: dyadic grid, integer T), the oracle
+  // keeps the untranslated ones: distances, norms and inner products are translation invariant.
+  Grid gl = g;
+  Diagram DL[3] = {t.d[0].D, t.d[1].D, t.d[2].D};
+  if (r.chance(1, 3)) {
+    static const double kFar[] = {1e3, -1e3, 1e5, -1e5, 1e7};
+    const double T = kFar[r.below(5)];
+    gl = g.translated(T);
+    for (int i = 0; i < 3; ++i) DL[i] = on_grid(t.d[i].di, gl);
+    c.log("grid and all three diagrams translated by " + vh::str(T) + " before the landscapes are built: " + show(gl));
+    c.count("diag.far_origin.grid", 3);
+    cls += ",far_origin";
+  }
+  Persistence_landscape_on_grid L[3] = {Persistence_landscape_on_grid(DL[0], gl.gmin, gl.gmax(), gl.N), Persistence_landscape_on_grid(DL[1], gl.gmin, gl.gmax(), gl.N),
+                                        Persistence_landscape_on_grid(DL[2], gl.gmin, gl.gmax(), gl.N)};
   Fn f[3] = {Fn(t.d[0].D), Fn(t.d[1].D), Fn(t.d[2].D)};
   if (r.chance(1, 4)) {
     c.log("L2 := average(L0, L1, L2)"); c.count("op.average_as_operand");
@@ -358,6 +464,14 @@ void metric_case(vh::Case& c) {
       c.log("distance(L" + vh::str(i) + ", L" + vh::str(j) + ", p=" + pn[pi] + ")");
       d[i][j] = L[i].distance(L[j], p);
       c.count("op.distance.p" + std::string(pn[pi]));
+      if (sup) {
+        // the documented friend function with p = max() is the same sup distance (distance() does not go through it)
+        c.log("compute_distance_of_landscapes_on_grid(L" + vh::str(i) + ", L" + vh::str(j) + ", p=" + pn[pi] + ")");
+        double dfr = compute_distance_of_landscapes_on_grid(L[i], L[j], p);
+        sec_ok = check_scalar(c, dfr, i == j ? 0.0 : lsdef::distance_sup(f[i], f[j]), kIntTol, "grid.distance_friend_function", sp + (i == j ? ",self" : ""),
+                              "compute_distance_of_landscapes_on_grid(L" + vh::str(i) + ",L" + vh::str(j) + ")");
+        if (!sec_ok) continue;
+      }
       if (i == j) { sec_ok = check_scalar(c, d[i][j], 0.0, kIntTol, "grid.distance_self_zero", sp, "distance(L" + vh::str(i) + ",L" + vh::str(i) + ")"); continue; }
       if (!sup && cross[i][j]) { c.count("skip.distance_levels_cross_between_grid_points"); continue; }
       double want = sup ? lsdef::distance_sup(f[i], f[j]) : lsdef::distance_p(f[i], f[j], (int)p);
@@ -420,6 +534,35 @@ void metric_case(vh::Case& c) {
   c.sample("{\"history\":\"" + vh::jesc(vh::G().history.substr(0, 700)) + "\"}");
 }
 
+// ------------------------------------------------------------------------------------------------ grid_edge
+// The landscape made by the default constructor (no grid point at all; it is what `Persistence_landscape_on_grid A;
+// A.compute_average(...)` starts from) is observed directly: every query that returns at all must describe the zero
+// function.  Evaluation at 0 (the only abscissa inside its range [0,0]) comes last: a crash there ends the case.
+void edge_case(vh::Case& c) {
+  vh::Rng& r = c.rng;
+  const std::string cls = "default_constructed";
+  Persistence_landscape_on_grid Z;
+  c.log("Z := Persistence_landscape_on_grid()"); c.count("op.default_construct");
+  double a = kScalars[r.below(10)];
+  bool scaled = r.chance(1, 2);
+  if (scaled) { c.log("Z := Z * " + vh::str(a)); Z = Z * a; }
+  bool ok = true;
+  c.log("integrals, suprema");
+  ok = check_scalar(c, Z.compute_integral_of_landscape(), 0.0, kIntTol, "grid.integral", cls, "compute_integral_of_landscape()") && ok;
+  ok = check_scalar(c, Z.compute_integral_of_landscape(2.0), 0.0, kIntTol, "grid.integral_p", cls, "compute_integral_of_landscape(2)") && ok;
+  ok = check_scalar(c, Z.compute_maximum(), 0.0, kValTol, "grid.maximum", cls + ",zero_function", "compute_maximum()") && ok;
+  for (unsigned k = 0; k < 2; ++k)
+    ok = check_scalar(c, Z.find_max(k), 0.0, kValTol, "grid.find_max", cls + ",level=zero", "find_max(" + vh::str(k) + ")") && ok;
+  std::vector<double> xs = {-1.0, 0.5, (double)r.range(-8, 8) / 4, 0.0};
+  for (double x : xs) for (unsigned k = 0; k < 2 && ok; ++k) {
+    c.log("evaluate level " + vh::str(k) + " at " + vh::str(x));
+    double got = Z.compute_value_at_a_given_point(k, x);
+    c.count(x == 0.0 ? "cmp.grid.value.default_constructed_at_0" : "cmp.grid.value.default_constructed");
+    if (got != 0.0) { c.violation("grid.value", cls, "level " + vh::str(k) + " at x=" + vh::str(x) + ": got " + vh::str(got) + " want 0"); ok = false; }
+  }
+  c.sample("{\"history\":\"" + vh::jesc(vh::G().history.substr(0, 400)) + "\"}");
+}
+
 template <void (*F)(vh::Case&)>
 void guarded(vh::Case& c) {
   try { F(c); }
@@ -431,4 +574,5 @@ void guarded(vh::Case& c) {
 VH_CONFIG("grid_values", guarded<values_case>);
 VH_CONFIG("grid_algebra", guarded<algebra_case>);
 VH_CONFIG("grid_metric", guarded<metric_case>);
+VH_CONFIG("grid_edge", guarded<edge_case>);
 VH_MAIN()
